@@ -94,3 +94,57 @@ contract(f"{B}::Node._start_up_actions",
 
 writers("C12", "start_up_countdown", [f"{B}::Node.power_on", f"{B}::Node.apply_timestep"], why="boot timer")
 writers("C12", "shut_down_countdown", [f"{B}::Node.power_off", f"{B}::Node.apply_timestep"], why="shut-down timer")
+
+# ---- Node.apply_timestep: the timed transitions ------------------------------------------------------------------------------
+# what a tick of software / interfaces / the file system may do: anything, except touching a node's power state or timers
+# (justified by the whole-tree writer frames on operating_state and the two countdowns, C12/C13)
+NODE_POWER = ["Node.operating_state", "Node.config", "Node.network_interfaces", "Node.services", "Node.applications", "Node.processes",
+              "Node.file_system", "Node.node_scan_countdown", "Node.red_scan_countdown",
+              "Node.ConfigSchema.start_up_countdown", "Node.ConfigSchema.shut_down_countdown", "Node.ConfigSchema.is_resetting",
+              "Node.ConfigSchema.start_up_duration", "Node.ConfigSchema.shut_down_duration", "Node.ConfigSchema.node_scan_duration"]
+SV_ = "src/primaite/simulator/system/services/service.py"
+AP_ = "src/primaite/simulator/system/applications/application.py"
+SW_ = "src/primaite/simulator/system/software.py"
+FS_ = "src/primaite/simulator/file_system/file_system.py"
+PR_ = "src/primaite/simulator/system/processes/process.py"
+# Modelled as touching software / file / interface state only (their network side effects are not modelled): sound for the
+# power-state postconditions below because no function outside Node writes a node's power fields (writer frames).
+TICK_MOD = ["Service.operating_state", "Service.restart_countdown", "Application.operating_state", "Application.install_countdown",
+            "Application.num_executions", "Software.health_state_actual", "Software.health_state_visible", "Software._fixing_countdown",
+            "Software.fixing_count", "Software.revealed_to_red", "Software.scanning_count",
+            "FileSystemItemABC.health_status", "FileSystemItemABC.visible_health_status", "FileSystemItemABC.revealed_to_red",
+            "FileSystemItemABC.deleted", "File.num_access", "Folder.scan_countdown", "Folder.red_scan_countdown",
+            "Folder.restore_countdown", "Folder._scanned_this_step"]
+for key in (f"{SV_}::Service.apply_timestep", f"{AP_}::Application.apply_timestep", f"{SW_}::Software.apply_timestep",
+            f"{SW_}::Software.scan", f"{SW_}::Software.reveal_to_red"):
+    dispatch_contract(key, ensures=[], modifies=TICK_MOD)
+for nm in ("apply_timestep", "scan", "reveal_to_red"):
+    contract(f"{FS_}::FileSystem.{nm}", verify=False, note="folder/file fan-out: file-system state only", ensures=[], modifies=TICK_MOD)
+contract(f"{B}::NetworkInterface.apply_timestep", verify=False, note="interface tick: no state", ensures=[], modifies=[])
+dispatch_contract(f"{B}::NetworkInterface.apply_timestep", ensures=[], modifies=[])
+contract(f"{PR_}::Process.apply_timestep", verify=False, note="process tick", ensures=[], modifies=TICK_MOD)
+contract(f"{PR_}::Process.scan", verify=False, note="process scan", ensures=[], modifies=TICK_MOD)
+contract(f"{PR_}::Process.reveal_to_red", verify=False, note="process reveal", ensures=[], modifies=TICK_MOD)
+
+LOOPS = {k: {"inv": [], "modifies": TICK_MOD + ["NetworkInterface.enabled", "Link.current_load", "NetworkInterface.pcap"]} for k in range(0, 12)}
+contract(f"{B}::Node.apply_timestep", props=["C12"],
+         # scope: ticks during which no node scan / reveal is pending (their fan-out multiplies the paths without touching
+         # the power state; the scan timer itself is covered by the writer frame in C14)
+         requires=["self.node_scan_countdown == 0", "self.red_scan_countdown == 0"],
+         ensures=[
+             ("boot_continues", f"implies(old(self.operating_state) == {BOOT} and old(self.config.start_up_countdown) > 0,"
+                                f" self.operating_state == {BOOT} and self.config.start_up_countdown == old(self.config.start_up_countdown) - 1)"),
+             ("boot_completes", f"implies(old(self.operating_state) == {BOOT} and old(self.config.start_up_countdown) <= 0, self.operating_state == {ON})"),
+             ("shutdown_continues", f"implies(old(self.operating_state) == {DOWN} and old(self.config.shut_down_countdown) > 0,"
+                                    f" self.operating_state == {DOWN} and self.config.shut_down_countdown == old(self.config.shut_down_countdown) - 1)"),
+             ("shutdown_completes", f"implies(old(self.operating_state) == {DOWN} and old(self.config.shut_down_countdown) <= 0 and not old(self.config.is_resetting),"
+                                    f" self.operating_state == {OFF})"),
+             # a reset is a shutdown followed by an automatic start, exactly once
+             ("reset_restarts_once", f"implies(old(self.operating_state) == {DOWN} and old(self.config.shut_down_countdown) <= 0 and old(self.config.is_resetting),"
+                                     f" self.config.is_resetting == False and self.operating_state == ({ON} if self.config.start_up_duration <= 0 else {BOOT}))"),
+             ("on_stays_on", f"implies(old(self.operating_state) == {ON}, self.operating_state == {ON})"),
+             ("off_stays_off", f"implies(old(self.operating_state) == {OFF}, self.operating_state == {OFF})"),
+         ],
+         modifies=TICK_MOD + NIC_MOD + SW_MOD + ["NetworkInterface.pcap", "self.operating_state", "self.config.start_up_countdown", "self.config.shut_down_countdown",
+                                                   "self.config.is_resetting", "self.node_scan_countdown", "self.red_scan_countdown"],
+         allocates=True, loops=LOOPS, budget_s=900, split=9)
